@@ -533,4 +533,13 @@ def pdu_histories(p, want: bytes, wo: dict, decode, tag="hist", decode_other=Non
     eq(devs, f"{tag}.decoded.fields_after_another_pdu_was_decoded", obs_pdu(y, kind), wo)
     eq(devs, f"{tag}.decoded.repack_after_another_pdu_was_decoded", bytes(y.pack()), want)
     eq(devs, f"{tag}.constructed.pack_after_another_pdu_was_decoded", bytes(x.pack()), want)
+    # the owner of a decoded PDU changes its id / sequence-number objects in place; the same octets decoded again give the packed values
+    # again, also after str() / repr() of the objects involved
+    y2 = decode(want)
+    str(y2), repr(y2)
+    hdr_conf = y2.pdu_header.pdu_conf
+    hdr_conf.transaction_seq_num.value = (c["seq"] + 1) % (1 << (8 * c["seqw"]))
+    hdr_conf.source_entity_id.value = (c["src"] + 1) % (1 << (8 * c["idw"]))
+    hdr_conf.dest_entity_id.value = c["dst"] ^ 1
+    eq(devs, f"{tag}.decoded_again_after_earlier_ids_were_changed_in_place", obs_pdu(decode(want), kind), wo)
     return devs
